@@ -524,7 +524,7 @@ def run(ctx):
                               ["dict", [["m", ["dict", [["__dtype__", ["str", "x"]]]]]]], ["dtype", "np", "float32"], ["dtype", "npdtype", "float64"]]):
         add_value_case(desc, "witness", i)
 
-    nsc = ctx.scale(4, 24)
+    nsc = ctx.scale(3, 24)
     for i in range(nsc):
         sc = gen_scene(rng)
         case = {"stream": "scene", "scene": sc}
